@@ -58,10 +58,21 @@ def all_cases(mod, pid, tier, seed):
 
 
 def run_one(mod, pid, case):
-    if isinstance(case, dict) and case.get("k") == "soak":
-        from . import soak
-        return soak.run_case(case, pid)
-    return mod.run_case(case)
+    import zlib
+    from . import harness as H
+    H.DEBUG_DEFAULT = zlib.crc32(repr(case).encode()) % 5 == 0
+    try:
+        if isinstance(case, dict) and case.get("k") == "soak":
+            from . import soak
+            r = soak.run_case(case, pid)
+        else:
+            r = mod.run_case(case)
+        if H.DEBUG_DEFAULT and isinstance(r, dict):
+            r.setdefault("obs", {})
+            r["obs"]["cases_with_debug_logging_on"] = 1
+        return r
+    finally:
+        H.DEBUG_DEFAULT = False
 
 
 def worker(pid, tier, seed, shard, nshards, out_path, budget_s):
